@@ -66,6 +66,12 @@ pub fn parse_htsvoice(input: &[u8]) -> Result<Voice, ModelParseError> {
     let stream: Stream = parse_header(&in_stream)?;
     let position: Position = parse_header(&in_position)?;
 
+    // The declared stream count sizes per-stream settings later on; it must be backed by the
+    // streams that are actually listed (and there must be at least one).
+    if global.stream_type.is_empty() || global.num_streams != global.stream_type.len() {
+        return Err(ModelParseError::InvalidHeader);
+    }
+
     let (duration_model, stream_models) = parse_data_section(in_data, &global, &stream, &position)?;
 
     // TODO: verify
